@@ -53,7 +53,7 @@ REQUIRED_COUNTERS = [
 ]
 TIMEOUT = {"quick": 900, "thorough": 3600}
 
-FLOAT32_DECIDES = False   # float32 signal frames: observe-only (see ASSUMPTIONS); True makes them deciding
+FLOAT32_DECIDES = True   # float32 signal frames are deciding since fix e01f537 in /repo
 FLOAT32_CLASSES = ("nice", "unlucky_decimal", "random", "negative", "integer")   # ranges float32 can resolve
 
 SHARDS = 16
